@@ -5,6 +5,7 @@ package main
 // other installed solvers.
 
 import (
+	"context"
 	"bufio"
 	"fmt"
 	"io"
@@ -139,6 +140,16 @@ func (s *Solver) Assert(t *Term) {
 	}
 }
 
+// AssertAxiom: a memory-model / function axiom; not a candidate for Go-side
+// instantiation (its instances at arbitrary integers say nothing useful and
+// the Go-side simplifier assumes sub-object addresses are never nil)
+func (s *Solver) AssertAxiom(t *Term) {
+	if t == TTrue {
+		return
+	}
+	s.send("(assert " + t.String() + ")")
+}
+
 func hasForall(t *Term) bool {
 	switch t.Op {
 	case "forall":
@@ -185,6 +196,15 @@ func (s *Solver) instancesAt(sks []*Term) []*Term {
 					return nil
 				}
 			}
+			// frame facts quantified over cells (pattern: select of the bound
+			// variable itself) are for the solver's own matching
+			for _, p := range t.Pats {
+				for _, x := range p {
+					if x.Op == "select" && len(x.Args) == 2 && len(t.Bind) == 1 && x.Args[1] == t.Bind[0] {
+						return nil
+					}
+				}
+			}
 			var r []*Term
 			switch len(t.Bind) {
 			case 1:
@@ -207,6 +227,10 @@ func (s *Solver) instancesAt(sks []*Term) []*Term {
 	for _, lv := range s.qlv {
 		for _, t := range lv {
 			for _, x := range inst(t) {
+				if x == TFalse {
+					fmt.Fprintf(os.Stderr, "instancesAt: FALSE instance of %s\n", t)
+					continue
+				}
 				if !seen[x] && x != TTrue && len(out) < 400 {
 					seen[x] = true
 					out = append(out, x)
@@ -327,29 +351,71 @@ func (s *Solver) primary(goal *Term) (CheckResult, string) {
 // the first solver again with three times the time limit, so that a machine
 // under load does not turn a slow proof into an alarm.
 func (s *Solver) fallbacks(script string, cr CheckResult) CheckResult {
-	for _, alt := range []struct {
+	type alt struct {
 		name, bin string
 		args      []string
-	}{
-		{"z3-new/default-config", "z3-new", []string{"-smt2", "-in", fmt.Sprintf("-T:%d", (s.timeout+999)/1000)}},
-		{"z3-4.8.12", "/usr/bin/z3", []string{"-smt2", "-in", fmt.Sprintf("-T:%d", (s.timeout+999)/1000)}},
-		{"cvc5", "cvc5", []string{"--lang=smt2", fmt.Sprintf("--tlimit=%d", s.timeout)}},
-		{"z3-new/default-config/3x", "z3-new", []string{"-smt2", "-in", fmt.Sprintf("-T:%d", 3*(s.timeout+999)/1000)}},
-		{"z3-new/3x", "z3-new", []string{"-smt2", "-in", fmt.Sprintf("-T:%d", 3*(s.timeout+999)/1000)}},
-	} {
-		t1 := time.Now()
-		res := runScript(alt.bin, alt.args, adaptScript(alt.name, script))
-		d := time.Since(t1).Seconds()
-		s.TimeBy[alt.name] += d
-		if res == "unsat" {
-			return CheckResult{Res: "unsat", By: alt.name}
+	}
+	sec := (s.timeout + 999) / 1000
+	rounds := [][]alt{
+		{
+			{"z3-new/default-config", "z3-new", []string{"-smt2", "-in", fmt.Sprintf("-T:%d", sec)}},
+			{"z3-4.8.12", "/usr/bin/z3", []string{"-smt2", "-in", fmt.Sprintf("-T:%d", sec)}},
+			{"cvc5", "cvc5", []string{"--lang=smt2", fmt.Sprintf("--tlimit=%d", s.timeout)}},
+		},
+		{
+			{"z3-new/default-config/3x", "z3-new", []string{"-smt2", "-in", fmt.Sprintf("-T:%d", 3*sec)}},
+			{"z3-new/3x", "z3-new", []string{"-smt2", "-in", fmt.Sprintf("-T:%d", 3*sec)}},
+			{"z3-4.8.12/3x", "/usr/bin/z3", []string{"-smt2", "-in", fmt.Sprintf("-T:%d", 3*sec)}},
+		},
+	}
+	for _, round := range rounds {
+		// the solvers of one round race; the first proof wins
+		type res struct {
+			name, out string
+			d         float64
 		}
-		if res == "sat" && alt.name != "cvc5" && cr.Res != "sat" {
-			cr.Res = "sat"
-			cr.By = alt.name
+		ctx, cancel := context.WithCancel(context.Background())
+		ch := make(chan res, len(round))
+		for _, a := range round {
+			a := a
+			go func() {
+				t1 := time.Now()
+				out := runScriptCtx(ctx, a.bin, a.args, adaptScript(a.name, script))
+				ch <- res{a.name, out, time.Since(t1).Seconds()}
+			}()
+		}
+		var winner string
+		for range round {
+			r := <-ch
+			s.TimeBy[r.name] += r.d
+			if r.out == "unsat" && winner == "" {
+				winner = r.name
+				cancel()
+			}
+			if r.out == "sat" && !strings.HasPrefix(r.name, "cvc5") && cr.Res != "sat" {
+				cr.Res = "sat"
+				cr.By = r.name
+			}
+		}
+		cancel()
+		if winner != "" {
+			return CheckResult{Res: "unsat", By: winner}
 		}
 	}
 	return cr
+}
+
+func runScriptCtx(ctx context.Context, bin string, args []string, script string) string {
+	cmd := exec.CommandContext(ctx, bin, args...)
+	cmd.Stdin = strings.NewReader(script)
+	out, _ := cmd.Output()
+	for _, l := range strings.Split(string(out), "\n") {
+		l = strings.TrimSpace(l)
+		if l == "sat" || l == "unsat" || l == "unknown" {
+			return l
+		}
+	}
+	return "unknown"
 }
 
 // Prove: check that goal follows from the current stack.
